@@ -995,7 +995,10 @@ def o_C12(I, ref_len):
     for op in I.ops.values():
         if op.done is None and not op.w:
             continue
-        M = ([None] + [v for sg, v in announced if sg <= op.seg])[-1]
+        # (the moment that counts is when the context takes the request off its queue — its packet appears or its refusal is
+        #  reported —, not when the caller issued it: requests may be queued before connect() has seen the CONNACK)
+        at = max([op.seg] + [min(([op.w[0][0]] if op.w else []) + ([op.done[0]] if op.done is not None else []))])
+        M = ([None] + [v for sg, v in announced if sg <= at])[-1]
         L = ref_len.get(op.id)
         if L is None:
             nsub = len([o for o in I.ops.values() if o.kind == 'SUBSCRIBE' and o.id <= op.id])
